@@ -31,6 +31,12 @@ func c18(p *core.Prog, r *core.Report) {
 	c18Layouts(p, r)
 	c18Iterator(p, r)
 	c18Plumbing(p, r)
+	// bad input fails only that input: pooled codec objects (the typed.Reader
+	// behind thrift header reading) carry no sticky error into the next use
+	r.Rule("C18-R5", "E6 census/paths", 3, "pooled codec objects are reset when taken from the pool (shared with C04)")
+	r.Alias("C04-R7", "C18-R5")
+	c04Pools(p, r)
+	r.Alias("C04-R7", "")
 }
 
 func c18Layouts(p *core.Prog, r *core.Report) {
